@@ -233,14 +233,21 @@ def reverse_doc(items):
 
 
 def all_top_permutations(items, limit=120):
-    """all permutations of the declarations of a single-module document (<= 5 declarations)"""
+    """all permutations of the declarations of a single-module document, or of the top-level items
+    (module blocks / fully-qualified declarations) of a document with several of them"""
     import itertools
-    if len(items) != 1 or not items[0].is_module():
-        return []
-    m = items[0]
     out = []
-    for p in itertools.permutations(range(len(m.children))):
-        out.append([Node(m.head, [m.children[i] for i in p], '')])
+    if len(items) == 1 and items[0].is_module():
+        m = items[0]
+        for p in itertools.permutations(range(len(m.children))):
+            out.append([Node(m.head, [m.children[i] for i in p], '')])
+            if len(out) >= limit:
+                break
+        return out
+    if len(items) > 5:
+        return []
+    for p in itertools.permutations(range(len(items))):
+        out.append([items[i] for i in p])
         if len(out) >= limit:
             break
     return out
@@ -353,6 +360,88 @@ HAND = [
     ('mod-std-names', 'module default { type str { property v -> std::str; }; type Us { link s -> default::str; property t -> std::str; }; '
                       'function count(x: int64) -> int64 using (x); type Cn { property c := default::count(1); property d := std::count({1, 2}); }; }'),
 ]
+
+# forced in every run of BOTH tiers of C03 and C11 (classes of seeded defects the random streams missed)
+SWEEP = [
+    # stored-expression normalisation: WITH aliases / FOR iterators / shape-computed names that shadow a
+    # type, function or module name inside their own definition
+    ('with-shadow', '''module app { type User { required property name -> str; property active -> bool; multi link friends -> User;
+      property nact := (with User := (select User filter .active) select count(User));
+      property first_active := (with User := (select User filter .active) select (select User order by .name limit 1).name); };
+   alias ActiveUsers := (with User := (select User filter .active) select User { name });
+   function active_names() -> set of str using (with User := (select User filter .active) select User.name);
+   type Post { link author -> User { default := (with User := (select User filter .active) select assert_single((select User limit 1))); };
+      required property title -> str { default := 'untitled'; constraint expression on (len(__subject__) > 0); };
+      property str := (with str := .title select str ++ '!');
+      property cnt := (with count := count(User) select count + 1); };
+   alias Iter := (for User in {1, 2} union (User + 1));
+   alias Shaped := (select User { str := .name, count := count(.friends), User := .name ++ '!' });
+   global app := (with app := 1 select app);
+ }'''),
+    ('with-shadow-default', 'module default { type User { required property name -> str; property active -> bool; '
+                            'property nact := (with User := (select User filter .active) select count(User)); }; '
+                            'alias ActiveUsers := (with User := (select User filter .active) select User { name }); '
+                            'function active_names() -> set of str using (with User := (select User filter .active) select User.name); }'),
+    # union-typed link targets on a holder whose name sorts before the right-hand operands
+    ('union-target', 'module default { type Aa { link l -> Ab | Zz; multi link m -> Zz | Ab | Mm; }; type Ab { property x -> str; }; '
+                     'type Zz { property x -> str; }; type Mm { property x -> str; }; }'),
+    # references that occur only inside FILTER / ORDER BY / OFFSET / LIMIT (result alias), nested shape
+    # filters, group, for ... union (select ... filter ...); cross-module, referencing declaration first
+    ('filter-only-refs', '''module default { type Holder {
+      property p := (select o := data::Other filter o.flag and exists data::Gate limit 1).name;
+      property q := (select o := data::Other order by data::rk(o.rank) limit 1).name;
+      property r := (select o := data::Other order by o.name offset count(data::Off) limit count(data::Lim)).name;
+      multi property t := (for x in {1, 2} union (select data::Other filter .rank = x and exists data::ForG).name);
+   };
+   alias V := (select data::Other { name, kids: { name } filter .rank = data::okv() });
+   function gcount() -> int64 using (count((group data::Other by .flag)) + data::gf(1));
+ }
+ module data { type Other { property flag -> bool; property name -> str; property rank -> int64; multi link kids -> Other; };
+   type Gate; type Off; type Lim; type ForG;
+   function rk(a: int64) -> int64 using (a); function okv() -> int64 using (1); function gf(a: int64) -> int64 using (a); }'''),
+    # nested modules in flat syntax and fully-qualified top-level declarations around `module shop {}`
+    ('flat-nested-modules', '''module shop { type Item { property sku -> shop::util::Sku; link bill -> shop::billing::Bill; }; };
+   module shop::billing { type Bill { link item -> shop::Item; property amount -> shop::util::Money; }; };
+   scalar type shop::util::Sku extending str;
+   module shop::util { scalar type Money extending int64; }'''),
+    # weak dependencies on every pointer of a given name + a function using such a pointer
+    ('weak-name-cycle', '''module default { type T1 { property x := assert_single(T3).name; }; type T2 { property name := f(); };
+   function f() -> optional str using ((select T1 limit 1).x); type T3 { property name -> str; }; }'''),
+    ('weak-name-cycle2', '''module default { type U1 { property name -> str; }; type U3 { property name -> str; };
+   function nm(t: U3) -> optional str using (t.name);
+   type U5 { property name := nm(assert_single(U3)); property e := assert_single(U1).name; }; }'''),
+]
+
+# schemas built by a DDL script (session module `default`) instead of SDL: C03 only
+SWEEP_DDL = [
+    ('with-shadow-ddl', '''create module default if not exists; create module other;
+create type default::User { create property name: str; create property active: bool; };
+create type other::User { create property name: str; create property active: bool; };
+create alias default::ActiveUsers := (with User := (select User filter .active) select User { name });'''),
+    ('with-shadow-ddl2', '''create module default if not exists; create module other;
+create type default::User { create property name: str; create property active: bool; };
+create type other::User { create property name: str; create property active: bool; };
+create function default::active_names() -> set of str using (with User := (select User filter .active) select User.name);
+alter type default::User { create property nact := (with User := (select User filter .active) select count(User)); };'''),
+]
+
+SHADOW_NAMES = ['Sh', 'count', 'len', 'str', 'std', 'shadowm', 'default', 'Object', 'min']
+
+
+def shadow_doc(rnd, extra_names=()):
+    """a module whose stored expressions use WITH aliases / FOR iterators / shape-computed names chosen
+    among type, function and module names (random per run)"""
+    names = SHADOW_NAMES + [n for n in extra_names if re.fullmatch(r'[A-Za-z_]\w*', n)]
+    n1, n2, n3, n4 = (rnd.choice(names) for _ in range(4))
+    return f'''module shadowm {{ type Sh {{ required property name -> str; property active -> bool; property rank -> int64;
+      property a := (with {n1} := (select Sh filter .active) select count({n1}));
+      multi property b := (for {n2} in {{1, 2}} union ({n2} + 1));
+      property c := (with {n3} := .name select {n3} ++ '!');
+      property d := (with {n1} := (select Sh filter .rank > 0) select (select {n1} order by .name limit 1).name); }};
+   alias ShV := (select Sh {{ {n4} := .name ++ '?' }});
+   function shf() -> set of str using (with {n3} := (select Sh filter .active) select {n3}.name);
+ }}''', (n1, n2, n3, n4)
+
 
 # declarations that depend on each other in a REAL cycle (must be rejected in every order) and
 # families that look cyclic but are not (must be accepted in every order)
